@@ -247,6 +247,14 @@ theorem splitRow_get (d neurons : Nat) (row : List K) (c k : Nat) (hc : c < d) (
 
 end
 
+/-- with one location set per function the trunk copy of function `i` must be used for row `i`: taking
+    the first copy for every function (a "shared trunk input" shortcut) gives a different answer as soon as
+    the copies differ — here function 1 at its own location gives 2, with the first copy it would be 1 -/
+theorem contract_unique_not_first_copy :
+    contract (K := Int) [[[[1]]], [[[2]]]] [[[1]], [[1]]] = .ok [[[1]], [[2]]] ∧
+    contract (K := Int) [[[[1]]]] [[[1]], [[1]]] = .ok [[[1]], [[1]]] := by
+  decide
+
 /-- NEGATIVE result about the pinned snapshot (before the repair `5a45fb8` in /repo): with 3 neurons
     and 2 output components the reshape `reshape(-1, 2, int(3/2))` turns the feature rows of TWO
     functions into THREE rows; the second one mixes features of function 0 and function 1. -/
